@@ -166,12 +166,12 @@ func gen(r *simcore.Rand, tier string) any {
 			op.C = 1
 		case 3: // pops
 			op.K = "pop"
-			switch r.Pick(6, 2, 1) {
+			switch r.Pick(12, 4, 1) {
 			case 0:
 				op.N = r.Range(1, 10)
 				op.C = 1
 			case 1:
-				op.N = r.Range(1, 700)
+				op.N = r.Range(1, 300)
 				if r.Bool(0.4) {
 					op.C = r.Range(1, 64)
 				}
@@ -218,6 +218,21 @@ func identEq(a, b Ident) bool {
 func decode(b []byte) (any, error) {
 	p := &Plan{}
 	return p, json.Unmarshal(b, p)
+}
+
+// isKnown: recorded findings (known_findings.jsonl) are skipped and counted so that
+// the exploration continues past them. IDXSIM_KNOWN (comma separated keys) is a
+// development aid for running before an entry is recorded.
+func isKnown(key string) bool {
+	if simcore.IsKnown(key) {
+		return true
+	}
+	for _, k := range strings.Split(os.Getenv("IDXSIM_KNOWN"), ",") {
+		if k != "" && k == key {
+			return true
+		}
+	}
+	return false
 }
 
 // hangSeen is set once a guarded call did not return; shrinking is then pointless
@@ -961,6 +976,7 @@ func (w *world) checkFull(opi, i int) *simcore.Violation {
 				return v
 			}
 			k := 0 // walks the model
+			nmatch := 0
 			var prev uint64
 			for n, x := range got {
 				if n > 0 && x <= prev {
@@ -977,9 +993,18 @@ func (w *world) checkFull(opi, i int) *simcore.Violation {
 					return viol("filter-invents-id", "op %d: filtered iteration (node %d) yields %d which is not stored", opi, f, x)
 				}
 				if matches(uint16(f), m.exts[k]) {
-					w.res.Probe("filter-match-returned")
+					nmatch++
 				}
 				k++
+			}
+			if nmatch > 0 {
+				w.res.Probe("filter-match-returned")
+			}
+			if nmatch < len(got) {
+				w.res.Probe("filter-returned-nonmatching")
+			}
+			if len(got) < len(m.ids) {
+				w.res.Probe("filter-skipped-elements")
 			}
 			for ; k < len(m.ids); k++ {
 				if matches(uint16(f), m.exts[k]) {
@@ -1116,7 +1141,7 @@ func mutate(orig []byte, c Corr) []byte {
 
 // guarded runs fn and converts a panic into (msg, site); a call that does not
 // return within the timeout is reported as hung (the goroutine is leaked).
-func guarded(fn func()) (panicked bool, msg string, hung bool) {
+func guarded(timeout time.Duration, fn func()) (panicked bool, msg string, hung bool) {
 	done := make(chan struct{})
 	go func() {
 		defer close(done)
@@ -1134,7 +1159,7 @@ func guarded(fn func()) (panicked bool, msg string, hung bool) {
 	select {
 	case <-done:
 		return
-	case <-time.After(20 * time.Second):
+	case <-time.After(timeout):
 		hangSeen = true
 		return false, "", true
 	}
@@ -1238,14 +1263,17 @@ func (w *world) corruptionRounds() *simcore.Violation {
 		bound := totalBytes + len(mut) + 64
 		for i := range w.idents {
 			if v := w.exerciseReader(ci, c, i, key, meta, mut, bound); v != nil {
-				if !simcore.IsKnown(v.Key) {
+				if !isKnown(v.Key) {
 					return v
 				}
 				w.res.KnownHit(v.Key)
 			}
-			if w.p.Writers && !hangSeen && os.Getenv("IDXSIM_NOWRITERS") == "" {
+			if w.p.Writers && isKnown("corrupt-writer-hang") && hasOverflowVarint(mut) {
+				// the recorded non-termination would leak a spinning goroutine per hit
+				w.res.Probe("writer-exercise-skipped-known-hang")
+			} else if w.p.Writers && !hangSeen && os.Getenv("IDXSIM_NOWRITERS") == "" {
 				if v := w.exerciseWriters(ci, c, i); v != nil {
-					if !simcore.IsKnown(v.Key) {
+					if !isKnown(v.Key) {
 						return v
 					}
 					w.res.KnownHit(v.Key)
@@ -1269,7 +1297,7 @@ func (w *world) exerciseReader(ci int, c Corr, i int, key []byte, meta bool, mut
 	id := w.idents[i]
 	var v *simcore.Violation
 	rejected, answered := 0, 0
-	panicked, msg, hung := guarded(func() {
+	panicked, msg, hung := guarded(20*time.Second, func() {
 		r, err := pathdb.VerifIdxNewReader(w.kv, id)
 		if err != nil {
 			rejected++
@@ -1364,8 +1392,10 @@ func (w *world) exerciseWriters(ci int, c Corr, i int) *simcore.Violation {
 	if len(m.ids) == 0 {
 		return nil
 	}
-	lims := []uint64{m.last(), m.ids[w.qr.Intn(len(m.ids))], m.ids[0] - 1}
-	panicked, msg, hung := guarded(func() {
+	// limits close to the newest id: trimming pops cost O(block) each in the tree under test
+	n := len(m.ids)
+	lims := []uint64{m.last(), m.ids[max(0, n-1-w.qr.Intn(6))], m.ids[max(0, n-1-w.qr.Intn(40))] - 1}
+	panicked, msg, hung := guarded(5*time.Second, func() {
 		for _, lim := range lims {
 			if wr, err := pathdb.VerifIdxNewWriter(w.kv, id, lim); err == nil {
 				_ = wr.Append(m.last()+1, w.genExt(simcore.NewRand(c.Seed), i, 1))
@@ -1382,12 +1412,30 @@ func (w *world) exerciseWriters(ci int, c Corr, i int) *simcore.Violation {
 		}
 	})
 	if hung {
-		return &simcore.Violation{Oracle: "corrupt-writer-hang", Key: "corrupt-writer-hang", Msg: fmt.Sprintf("corruption %d (%s at offset %d): rebuilding the writer/deleter on the corrupted bytes did not return within 20 s", ci, c.Kind, c.Off)}
+		return &simcore.Violation{Oracle: "corrupt-writer-hang", Key: "corrupt-writer-hang", Msg: fmt.Sprintf("corruption %d (%s at offset %d): rebuilding the writer/deleter on the corrupted bytes did not return within 5 s (blockWriter.scanSection walks backwards on an overflowing varint)", ci, c.Kind, c.Off)}
 	}
 	if panicked {
 		return &simcore.Violation{Oracle: "corrupt-writer-panic", Key: "corrupt-writer-panic", Msg: fmt.Sprintf("corruption %d (%s at offset %d, len %d): the index writer/deleter panics on the corrupted bytes instead of returning an error: %s", ci, c.Kind, c.Off, c.Len, msg)}
 	}
 	return nil
+}
+
+// hasOverflowVarint: nine continuation bytes followed by a byte > 1, i.e. a varint
+// for which binary.Uvarint reports overflow (n < 0). Never present in intact data
+// (ids stay below 2^63).
+func hasOverflowVarint(b []byte) bool {
+	run := 0
+	for _, c := range b {
+		if run >= 9 && c > 1 {
+			return true
+		}
+		if c >= 0x80 {
+			run++
+		} else {
+			run = 0
+		}
+	}
+	return false
 }
 
 func blockIDOf(key []byte) uint32 { return binary.BigEndian.Uint32(key[len(key)-4:]) }
